@@ -99,6 +99,7 @@ inductive Res (Tup Ans : Type) where
   | models (vs : List Nat)
   | asserts (as : List Tup)
   | alive (b : Bool)
+  deriving DecidableEq
 
 variable {Tup Q Ans : Type} [DecidableEq Tup] [DecidableEq Q]
 
